@@ -237,6 +237,19 @@ def noncontig_boundary(n, fam='NCB'):
         add([(64, 64), (0, 64)], kinds=['n', 'i'])
         add([(1, 63), (64, 64), (0, 1)], kinds=['n', 'i'])                # pieces of a u128 value crossing bit 64 off the byte grid
         add([(100, 28), (0, 100)], kinds=['n'])
+    # many pieces: more than 8 / 16 / 32 / 64 ranges in one list
+    for k in (9, 10, 12, 16, 17, 32, 33, 64, 65, 128):
+        if k <= n:
+            add([(k - 1 - i, 1) for i in range(k)])                       # reversal of the low k bits
+        if 2 * k - 1 <= n:
+            add([(2 * i, 1) for i in range(k)])                           # every other bit
+        if k < n:
+            add([(n - k + i, 1) for i in range(k)])                       # the top k bits named one by one
+    if n >= 18:
+        add([(16 - 2 * i, 2) for i in range(9)])                          # nine 2-bit pieces, descending
+        add([(2 * i, 2) for i in (0, 2, 4, 6, 8, 1, 3, 5, 7)])
+    if n >= 40:
+        add([(36 - 4 * i, 3) for i in range(10)] + [(39, 1)])             # eleven pieces of mixed widths
     # wide pieces straddling the 64-bit line
     if n > 70:
         add([(60, 8), (0, 8)])
@@ -256,6 +269,9 @@ def ncarr(n, quick=True, fam='NCARR'):
                                                     [(4, 2), (8, 2)], [(8, 2), (4, 2)], [(2, 3), (9, 1)], [(5, 1), (1, 2)]]
     if n >= 32:
         lists += [[(4, 2), (8, 2)], [(1, 8), (12, 8)], [(12, 8), (1, 8)], [(3, 4), (16, 4)]]
+    if n >= 20:
+        # elements made of more than 8 pieces (interleaving with stride 1, side by side with stride = span)
+        lists += [[(2 * i, 1) for i in range(9)], [(16 - 2 * i, 1) for i in range(9)], [(i, 1) for i in reversed(range(10))]]
     seen = set()
     for rl in lists:
         w = sum(l for _, l in rl)
